@@ -727,7 +727,11 @@ def gen_C05(rng, tier, dist):
         else:
             cfg, ops, info = gen_history(rng, dist, codec=codec, audio=audio, rejects=0.35)
             out.append(pcase(cfg + " twin=filter", ops))
-    return out + smallscope_histories(tier, dist, extra="twin=filter")
+    out += smallscope_histories(tier, dist, extra="twin=filter")
+    # fragmented muxer: refusal-rich sequences (judged by the C10 + C11 + C02 oracles: outputs as if the refused calls had never been made)
+    for _ in range(400 if tier == "quick" else 30000):
+        out.append(fcase(frag_cfg(rng, dist), frag_ops(rng, dist, maxlen=30, reject_rate=0.3)))
+    return out + frag_smallscope(tier, dist, L=4 if tier == "quick" else 5)
 
 
 def frag_cfg(rng, dist):
@@ -752,7 +756,7 @@ def frag_cfg(rng, dist):
     return c
 
 
-def frag_ops(rng, dist, maxlen=60, steps=None, start=None, reorder=None, queries=True):
+def frag_ops(rng, dist, maxlen=60, steps=None, start=None, reorder=None, queries=True, reject_rate=0.08):
     n = rng.randrange(1, maxlen)
     step = rng.choice([3000, 3003, 1500, 1]) if steps is None else steps
     dts = rng.choice([0, 0, 90000, 1234567]) if start is None else start
@@ -769,7 +773,7 @@ def frag_ops(rng, dist, maxlen=60, steps=None, start=None, reorder=None, queries
             size = rng.choice([0, 1, 2, 5, 40, 300]) if rng.random() < 0.8 else rng.randrange(0, 2000)
             data = bytes((i * 13 + j * 7 + 1) & 0xFF for j in range(size))
             d = dts
-            if rng.random() < 0.08:
+            if rng.random() < reject_rate:
                 d = max(0, dts - rng.choice([1, 3000, 100000]))   # probably rejected
             pts = d + (rng.choice([0, 3000, 6000]) if reorder else 0)
             if reorder and rng.random() < 0.2:
@@ -798,8 +802,45 @@ def fcase(cfg, ops):
     return "F %s | %s" % (cfg, " ; ".join(ops))
 
 
-def gen_C10(rng, tier, dist):
+def frag_smallscope(tier, dist, L=None):
+    """every op sequence of length <= L over {accepted write (+3000), accepted write (same dts), refused
+    write (earlier dts; the clock the later writes are derived from does NOT move), refused write at 0,
+    flush, ready, init}, flushed at the end"""
+    L = L or (5 if tier == "quick" else 6)
+    alphabet = ["w+", "w=", "w-", "w0", "fflush", "fready", "finit"]
+    cfg = "w=640 h=480 ts=90000 fd=2000 sps=6742001e pps=68ce3880"
     out = []
+    for k in range(1, L + 1):
+        for seq in itertools.product(alphabet, repeat=k):
+            dts = 6000
+            first = True
+            ops = []
+            for i, a in enumerate(seq):
+                if a == "w+":
+                    dts = dts if first else dts + 3000
+                    first = False
+                    ops.append("fw %d %d %s %d" % (dts + (3000 if i % 2 else 0), dts, hx(bytes([i + 1, 0xE1])), 1 if i % 3 == 0 else 0))
+                elif a == "w=":
+                    first = False
+                    ops.append("fw %d %d %s 0" % (dts, dts, hx(bytes([i + 1, 0xE2, 0xE2]))))
+                elif a == "w-":
+                    lo = max(0, dts - 1500)
+                    ops.append("fw %d %d %s 1" % (lo, lo, hx(bytes([i + 1, 0xE3]))))   # refused unless it is the first write (or the clock is at 0)
+                    if first:
+                        dts = lo; first = False
+                elif a == "w0":
+                    ops.append("fw 0 0 %s 1" % hx(bytes([i + 1, 0xE4])))
+                    if first:
+                        dts = 0; first = False
+                else:
+                    ops.append(a)
+            out.append(fcase(cfg, ops + ["fflush"]))
+    dist["frag_smallscope_len<=%d" % L] += len(out)
+    return out
+
+
+def gen_C10(rng, tier, dist):
+    out = frag_smallscope(tier, dist)
     n = 1000 if tier == "quick" else 60000
     for _ in range(n):
         out.append(fcase(frag_cfg(rng, dist), frag_ops(rng, dist)))
@@ -823,7 +864,7 @@ def gen_C10(rng, tier, dist):
 
 
 def gen_C11(rng, tier, dist):
-    out = []
+    out = frag_smallscope(tier, dist, L=4 if tier == "quick" else 6)
     n = 800 if tier == "quick" else 50000
     for _ in range(n):
         k = rng.random()
